@@ -1,2 +1,438 @@
-From Coq Require Import List NArith ZArith Bool.
+(* Proof of C17: the automaton walk over the trie built from a dictionary equals the
+   declarative pattern-matching semantics (Aho-Corasick invariant). *)
+From Coq Require Import List NArith ZArith Bool Lia.
 From Lou Require Import Model.Hyph Model.HyphSpec.
+Import ListNotations.
+Local Open Scope N_scope.
+
+(* ------------------------------------------------------------------ *)
+(* 1. applying a pattern: apply_pat vs apply_digits, stripped zeros     *)
+
+Lemma bump_zero : forall (h : list N) (k : nat), bump h k 0 = h.
+Proof.
+  induction h as [|x h IH]; intros [|k]; cbn [bump]; try reflexivity.
+  - assert (E : (x <? 0) = false) by (apply N.ltb_ge; apply N.le_0_l).
+    rewrite E. reflexivity.
+  - rewrite IH. reflexivity.
+Qed.
+
+Lemma apply_digits_ge : forall (p : list N) (h : list N) (off n : Z),
+  (n <= off)%Z -> apply_digits h off p n = h.
+Proof.
+  induction p as [|v p IH]; intros h off n H; cbn [apply_digits]; [reflexivity|].
+  replace ((0 <=? off) && (off <? n))%Z with false.
+  - apply IH. lia.
+  - symmetry. apply andb_false_iff. right. apply Z.ltb_ge. lia.
+Qed.
+
+Lemma apply_pat_digits : forall (pat : list N) (h : list N) (off n : Z) (oob : bool),
+  fst (apply_pat h off pat n oob) = apply_digits h off pat n.
+Proof.
+  induction pat as [|v pat IH]; intros h off n oob; cbn [apply_pat apply_digits];
+    [reflexivity|].
+  destruct (off <? n)%Z eqn:E1.
+  - destruct (off <? 0)%Z eqn:E2.
+    + replace (0 <=? off)%Z with false
+        by (symmetry; apply Z.leb_gt; apply Z.ltb_lt in E2; lia).
+      cbn [andb]. apply IH.
+    + replace (0 <=? off)%Z with true
+        by (symmetry; apply Z.leb_le; apply Z.ltb_ge in E2; lia).
+      cbn [andb]. apply IH.
+  - rewrite andb_false_r. cbn [fst]. symmetry. apply apply_digits_ge.
+    apply Z.ltb_ge in E1. lia.
+Qed.
+
+Lemma strip0_length : forall p : list N, (length (strip0 p) <= length p)%nat.
+Proof.
+  induction p as [|v p IH]; [cbn; lia|].
+  destruct v as [|q]; cbn [strip0 length]; lia.
+Qed.
+
+Lemma apply_digits_strip0 : forall (p : list N) (h : list N) (off n : Z),
+  apply_digits h off p n =
+  apply_digits h (off + Z.of_nat (length p) - Z.of_nat (length (strip0 p)))%Z (strip0 p) n.
+Proof.
+  induction p as [|v p IH]; intros h off n.
+  - reflexivity.
+  - destruct v as [|q].
+    + cbn [strip0 apply_digits]. rewrite bump_zero.
+      assert (E : (if ((0 <=? off) && (off <? n))%Z then h else h) = h)
+        by (destruct ((0 <=? off) && (off <? n))%Z; reflexivity).
+      rewrite E. rewrite IH. f_equal. cbn [length]. lia.
+    + cbn [strip0].
+      replace (off + Z.of_nat (length (N.pos q :: p)) - Z.of_nat (length (N.pos q :: p)))%Z
+        with off by lia.
+      reflexivity.
+Qed.
+
+Lemma apply_main : forall (p : list N) (s : list char) (h : list N) (i : nat) (n : Z) (oob : bool),
+  length p = S (length s) ->
+  fst (apply_pat h (Z.of_nat i + 1 - Z.of_nat (length (strip0 p)))%Z (strip0 p) n oob) =
+  apply_digits h (Z.of_nat i - Z.of_nat (length s))%Z p n.
+Proof.
+  intros p s h i n oob Hlen.
+  rewrite apply_pat_digits, (apply_digits_strip0 p). f_equal. lia.
+Qed.
+
+(* ------------------------------------------------------------------ *)
+(* 2. the trie: lookup after insert                                     *)
+
+Lemma t_insert_cons : forall (a : char) (w : list char) (p : list N) (t : trie),
+  t_insert (a :: w) p t =
+  match t with
+  | Nil => Edge a (match w with [] => Some p | _ => None end) (t_insert w p Nil) Nil
+  | Edge c' p' d n =>
+      if a =? c' then Edge c' (match w with [] => Some p | _ => p' end) (t_insert w p d) n
+      else Edge c' p' d (t_insert (a :: w) p n)
+  end.
+Proof. intros a w p t. destruct t; reflexivity. Qed.
+
+Definition old_pat (t : trie) (a : char) : option (list N) :=
+  match t_find t a with Some (p', _) => p' | None => None end.
+
+Definition old_down (t : trie) (a : char) : trie :=
+  match t_find t a with Some (_, d) => d | None => Nil end.
+
+Lemma t_find_insert_same : forall (a : char) (w : list char) (p : list N) (t : trie),
+  t_find (t_insert (a :: w) p t) a =
+  Some (match w with [] => Some p | _ => old_pat t a end, t_insert w p (old_down t a)).
+Proof.
+  intros a w p t. unfold old_pat, old_down.
+  induction t as [|c' p' d _ n IHn]; rewrite t_insert_cons.
+  - cbn [t_find]. rewrite N.eqb_refl. reflexivity.
+  - destruct (a =? c') eqn:E; cbn [t_find]; rewrite E.
+    + reflexivity.
+    + exact IHn.
+Qed.
+
+Lemma t_find_insert_other : forall (a c : char) (w : list char) (p : list N) (t : trie),
+  (c =? a) = false -> t_find (t_insert (a :: w) p t) c = t_find t c.
+Proof.
+  intros a c w p t H.
+  induction t as [|c' p' d _ n IHn]; rewrite t_insert_cons.
+  - cbn [t_find]. rewrite H. reflexivity.
+  - destruct (a =? c') eqn:E; cbn [t_find].
+    + apply N.eqb_eq in E. subst c'. rewrite H. reflexivity.
+    + destruct (c =? c'); [reflexivity | exact IHn].
+Qed.
+
+Definition flat (x : option (option (list N))) : option (list N) :=
+  match x with Some y => y | None => None end.
+
+Lemma t_lookup_cons : forall (t : trie) (c : char) (r : list char),
+  t_lookup t (c :: r) =
+  match t_find t c with
+  | None => None
+  | Some (p, d) => match r with [] => Some p | _ => t_lookup d r end
+  end.
+Proof. intros t c r. destruct r; reflexivity. Qed.
+
+Lemma t_lookup_insert : forall (w : list char) (p : list N) (t : trie) (c : char) (r : list char),
+  t_lookup (t_insert w p t) (c :: r) =
+  if eqb_chars (c :: r) w then Some (Some p)
+  else if prefixb (c :: r) w then Some (flat (t_lookup t (c :: r)))
+  else t_lookup t (c :: r).
+Proof.
+  induction w as [|a w IH]; intros p t c r.
+  - reflexivity.
+  - cbn [eqb_chars prefixb]. rewrite !t_lookup_cons.
+    destruct (c =? a) eqn:E.
+    + apply N.eqb_eq in E. subst c. rewrite t_find_insert_same. cbn [andb].
+      destruct r as [|c2 r2].
+      * destruct w as [|a2 w2]; cbn [eqb_chars prefixb].
+        -- reflexivity.
+        -- unfold old_pat. destruct (t_find t a) as [[p0 d0]|]; reflexivity.
+      * rewrite IH. unfold old_down. destruct (t_find t a) as [[p0 d0]|].
+        -- reflexivity.
+        -- reflexivity.
+    + rewrite t_find_insert_other by exact E. cbn [andb]. reflexivity.
+Qed.
+
+(* ------------------------------------------------------------------ *)
+(* 3. the trie built from a dictionary                                  *)
+
+Lemma eqb_prefixb : forall s w : list char, eqb_chars s w = true -> prefixb s w = true.
+Proof.
+  induction s as [|x s IH]; intros [|y w] H; cbn [eqb_chars prefixb] in *; try congruence.
+  apply andb_true_iff in H as [H1 H2]. rewrite H1, (IH _ H2). reflexivity.
+Qed.
+
+Lemma eqb_length : forall s w : list char, eqb_chars s w = true -> length s = length w.
+Proof.
+  induction s as [|x s IH]; intros [|y w] H; cbn [eqb_chars length] in *; try congruence.
+  apply andb_true_iff in H as [_ H2]. rewrite (IH _ H2). reflexivity.
+Qed.
+
+Lemma prefixb_snoc : forall (s : list char) (c : char) (w : list char),
+  prefixb (s ++ [c]) w = true -> prefixb s w = true.
+Proof.
+  induction s as [|x s IH]; intros c [|y w] H; cbn [app prefixb] in *; try congruence.
+  apply andb_true_iff in H as [H1 H2]. rewrite H1, (IH _ _ H2). reflexivity.
+Qed.
+
+Lemma pat_fold_none : forall (s : list char) (es : list (list char * list N)) (acc : option (list N)),
+  existsb (fun e => prefixb s (fst e)) es = false ->
+  fold_left (fun acc e => if eqb_chars s (fst e) then Some (snd e) else acc) es acc = acc.
+Proof.
+  intros s. induction es as [|e es IH]; intros acc H; cbn [fold_left existsb] in *.
+  - reflexivity.
+  - apply orb_false_iff in H as [H1 H2].
+    destruct (eqb_chars s (fst e)) eqn:E.
+    + apply eqb_prefixb in E. congruence.
+    + apply IH. exact H2.
+Qed.
+
+Lemma build_app : forall (d : list (list char)) (tok : list char),
+  build (d ++ [tok]) = add_token (build d) tok.
+Proof. intros d tok. unfold build. rewrite fold_left_app. reflexivity. Qed.
+
+Lemma lookup_build : forall (d : list (list char)) (c : char) (r : list char),
+  t_lookup (build d) (c :: r) =
+  if is_pat_prefix d (c :: r) then Some (option_map strip0 (pat_of d (c :: r))) else None.
+Proof.
+  induction d as [|tok d IHd] using rev_ind; intros c r.
+  - reflexivity.
+  - rewrite build_app. unfold add_token. destruct (split_token tok) as [w p] eqn:E.
+    rewrite t_lookup_insert, IHd.
+    unfold is_pat_prefix, pat_of, entries.
+    rewrite map_app, existsb_app, fold_left_app. cbn [map existsb fold_left].
+    rewrite E. cbn [fst snd]. rewrite orb_false_r.
+    destruct (eqb_chars (c :: r) w) eqn:E1.
+    + rewrite (eqb_prefixb _ _ E1), orb_true_r. reflexivity.
+    + destruct (prefixb (c :: r) w) eqn:E2.
+      * rewrite orb_true_r.
+        destruct (existsb (fun e => prefixb (c :: r) (fst e)) (map split_token d)) eqn:E3.
+        -- reflexivity.
+        -- rewrite (pat_fold_none _ _ _ E3). reflexivity.
+      * rewrite orb_false_r. reflexivity.
+Qed.
+
+Lemma is_state_build : forall (d : list (list char)) (c : char) (r : list char),
+  is_state (build d) (c :: r) = is_pat_prefix d (c :: r).
+Proof.
+  intros d c r. unfold is_state, state_of. rewrite lookup_build.
+  destruct (is_pat_prefix d (c :: r)); reflexivity.
+Qed.
+
+Lemma is_pat_prefix_snoc : forall (d : list (list char)) (s : list char) (c : char),
+  is_pat_prefix d (s ++ [c]) = true -> is_pat_prefix d s = true.
+Proof.
+  intros d s c H. unfold is_pat_prefix in *.
+  apply existsb_exists in H as [e [Hin Hp]].
+  apply existsb_exists. exists e. split; [exact Hin|].
+  apply prefixb_snoc in Hp. exact Hp.
+Qed.
+
+(* lengths: a pattern has one more digit than its word has letters *)
+
+Lemma split_token_aux_length : forall (s rw : list char) (rp : list N) (cur : N),
+  (length (snd (split_token_aux s rw rp cur)) + length rw =
+   length (fst (split_token_aux s rw rp cur)) + length rp + 1)%nat.
+Proof.
+  induction s as [|c s IH]; intros rw rp cur; cbn [split_token_aux].
+  - cbn [fst snd]. rewrite !rev_length. cbn [length]. lia.
+  - destruct (is_digit c).
+    + apply IH.
+    + specialize (IH (c :: rw) (cur :: rp) 0). cbn [length] in IH. lia.
+Qed.
+
+Lemma split_token_length : forall tok : list char,
+  length (snd (split_token tok)) = S (length (fst (split_token tok))).
+Proof.
+  intros tok. unfold split_token.
+  pose proof (split_token_aux_length tok [] [] 0) as H. cbn [length] in H. lia.
+Qed.
+
+Lemma pat_fold_length : forall (s : list char) (es : list (list char * list N)) (acc : option (list N)),
+  Forall (fun e => length (snd e) = S (length (fst e))) es ->
+  (forall p, acc = Some p -> length p = S (length s)) ->
+  forall p,
+    fold_left (fun acc e => if eqb_chars s (fst e) then Some (snd e) else acc) es acc = Some p ->
+    length p = S (length s).
+Proof.
+  intros s. induction es as [|e es IH]; intros acc HF Hacc p Hp; cbn [fold_left] in Hp.
+  - apply Hacc. exact Hp.
+  - inversion HF as [|e' es' He HF']; subst.
+    eapply IH; [exact HF' | | exact Hp].
+    intros p0 Hp0. destruct (eqb_chars s (fst e)) eqn:E.
+    + injection Hp0 as <-. rewrite (eqb_length _ _ E). exact He.
+    + apply Hacc. exact Hp0.
+Qed.
+
+Lemma pat_of_length : forall (d : list (list char)) (s : list char) (p : list N),
+  pat_of d s = Some p -> length p = S (length s).
+Proof.
+  intros d s p H. unfold pat_of in H.
+  eapply pat_fold_length; [ | | exact H].
+  - unfold entries. apply Forall_forall. intros e Hin.
+    apply in_map_iff in Hin as [tok [Htok _]]. subst e. apply split_token_length.
+  - intros p0 Hp0. discriminate Hp0.
+Qed.
+
+(* ------------------------------------------------------------------ *)
+(* 4. fallback and next_state: the Aho-Corasick step                    *)
+
+(* longest suffix (possibly empty) that is a state *)
+Fixpoint lss (t : trie) (l : list char) : list char :=
+  match l with
+  | [] => []
+  | _ :: l' => if is_state t l then l else lss t l'
+  end.
+
+Definition prefix_closed (t : trie) : Prop :=
+  forall (s : list char) (c : char), s <> [] -> is_state t (s ++ [c]) = true -> is_state t s = true.
+
+Lemma fallback_lss : forall (t : trie) (l : list char) (a : char),
+  fallback t (a :: l) = lss t l.
+Proof.
+  intros t. induction l as [|b l IH]; intros a.
+  - reflexivity.
+  - change (fallback t (a :: b :: l))
+      with (if is_state t (b :: l) then b :: l else fallback t (b :: l)).
+    cbn [lss]. destruct (is_state t (b :: l)); [reflexivity|]. apply IH.
+Qed.
+
+Lemma lss_find : forall (t : trie) (l : list char),
+  lss t l = match find (is_state t) (suffixes l) with Some s => s | None => [] end.
+Proof.
+  intros t. induction l as [|a l IH]; [reflexivity|].
+  cbn [suffixes find lss]. destruct (is_state t (a :: l)); [reflexivity | exact IH].
+Qed.
+
+Lemma lss_state : forall (t : trie) (l : list char), is_state t (lss t l) = true.
+Proof.
+  intros t. induction l as [|a l IH]; [reflexivity|].
+  cbn [lss]. destruct (is_state t (a :: l)) eqn:E; [exact E | exact IH].
+Qed.
+
+Lemma lss_length : forall (t : trie) (l : list char), (length (lss t l) <= length l)%nat.
+Proof.
+  intros t. induction l as [|a l IH]; [cbn; lia|].
+  cbn [lss]. destruct (is_state t (a :: l)); cbn [length] in *; lia.
+Qed.
+
+Lemma find_lss_snoc : forall (t : trie), prefix_closed t ->
+  forall (l : list char) (ch : char),
+  find (is_state t) (suffixes (lss t l ++ [ch])) = find (is_state t) (suffixes (l ++ [ch])).
+Proof.
+  intros t PC. induction l as [|a l IH]; intros ch; [reflexivity|].
+  cbn [lss]. destruct (is_state t (a :: l)) eqn:E; [reflexivity|].
+  rewrite IH. change ((a :: l) ++ [ch]) with (a :: (l ++ [ch])).
+  cbn [suffixes find].
+  destruct (is_state t (a :: l ++ [ch])) eqn:E2; [|reflexivity].
+  exfalso. assert (H : is_state t (a :: l) = true).
+  { apply (PC (a :: l) ch); [discriminate | exact E2]. }
+  congruence.
+Qed.
+
+Lemma next_state_full : forall (t : trie), prefix_closed t ->
+  forall (fuel : nat) (l : list char) (ch : char),
+  (length l < fuel)%nat -> is_state t l = true ->
+  next_state fuel t l ch = find (is_state t) (suffixes (l ++ [ch])).
+Proof.
+  intros t PC. induction fuel as [|f IHf]; intros l ch Hlen Hst; [lia|].
+  cbn [next_state]. destruct l as [|a l'].
+  - cbn [app suffixes find]. destruct (is_state t [ch]); reflexivity.
+  - change ((a :: l') ++ [ch]) with (a :: (l' ++ [ch])). cbn [suffixes find].
+    destruct (is_state t (a :: l' ++ [ch])); [reflexivity|].
+    rewrite fallback_lss. rewrite IHf.
+    + apply find_lss_snoc. exact PC.
+    + pose proof (lss_length t l') as HL. cbn [length] in Hlen. lia.
+    + apply lss_state.
+Qed.
+
+Lemma next_state_main : forall (t : trie), prefix_closed t ->
+  forall (seen : list char) (ch : char),
+  next_state (S (S (length (lss t seen)))) t (lss t seen) ch =
+  find (is_state t) (suffixes (seen ++ [ch])).
+Proof.
+  intros t PC seen ch.
+  rewrite (next_state_full t PC); [apply find_lss_snoc; exact PC | lia | apply lss_state].
+Qed.
+
+Lemma prefix_closed_build : forall d : list (list char), prefix_closed (build d).
+Proof.
+  intros d s c Hne H. destruct s as [|x r]; [congruence|].
+  change ((x :: r) ++ [c]) with (x :: (r ++ [c])) in H.
+  rewrite is_state_build in *.
+  apply (is_pat_prefix_snoc d (x :: r) c). exact H.
+Qed.
+
+(* ------------------------------------------------------------------ *)
+(* 5. the walk                                                          *)
+
+Lemma find_suffixes_ext : forall (f g : list char -> bool),
+  (forall c r, f (c :: r) = g (c :: r)) ->
+  forall l : list char, find f (suffixes l) = find g (suffixes l).
+Proof.
+  intros f g H. induction l as [|a l IH]; [reflexivity|].
+  cbn [suffixes find]. rewrite H, IH. reflexivity.
+Qed.
+
+Lemma find_suffixes_cons : forall (f : list char -> bool) (l s : list char),
+  find f (suffixes l) = Some s -> exists c r, s = c :: r.
+Proof.
+  intros f. induction l as [|a l IH]; intros s H; cbn [suffixes find] in H.
+  - discriminate H.
+  - destruct (f (a :: l)).
+    + injection H as <-. exists a, l. reflexivity.
+    + apply IH. exact H.
+Qed.
+
+Lemma firstn_snoc : forall (seen : list char) (ch : char) (text : list char),
+  firstn (S (length seen)) (seen ++ ch :: text) = seen ++ [ch].
+Proof.
+  induction seen as [|a seen IH]; intros ch text.
+  - reflexivity.
+  - cbn [length app]. change (firstn (S (S (length seen))) (a :: (seen ++ ch :: text)))
+      with (a :: firstn (S (length seen)) (seen ++ ch :: text)).
+    rewrite IH. reflexivity.
+Qed.
+
+Lemma walk_aux_spec : forall (d : list (list char)) (n : Z) (text seen : list char)
+    (h : list N) (oob : bool),
+  fst (walk_aux (build d) text (Z.of_nat (length seen)) (lss (build d) seen) n h oob) =
+  fold_left (contrib d n (seen ++ text)) (seq (length seen) (length text)) h.
+Proof.
+  intros d n. set (t := build d).
+  induction text as [|ch text IH]; intros seen h oob.
+  - reflexivity.
+  - assert (IH' : forall h' oob',
+      fst (walk_aux t text (Z.of_nat (length seen) + 1)%Z (lss t (seen ++ [ch])) n h' oob') =
+      fold_left (contrib d n (seen ++ ch :: text)) (seq (S (length seen)) (length text)) h').
+    { intros h' oob'. specialize (IH (seen ++ [ch]) h' oob').
+      rewrite app_length in IH. cbn [length] in IH.
+      rewrite <- app_assoc in IH. cbn [app] in IH.
+      replace (length seen + 1)%nat with (S (length seen)) in IH by lia.
+      replace (Z.of_nat (S (length seen))) with (Z.of_nat (length seen) + 1)%Z in IH by lia.
+      exact IH. }
+    cbn [walk_aux length seq fold_left].
+    rewrite (next_state_main t (prefix_closed_build d)).
+    unfold contrib at 2. rewrite firstn_snoc.
+    rewrite (find_suffixes_ext (is_pat_prefix d) (is_state t))
+      by (intros c r; symmetry; apply is_state_build).
+    destruct (find (is_state t) (suffixes (seen ++ [ch]))) as [st'|] eqn:F.
+    + destruct (find_suffixes_cons _ _ _ F) as [c [r Hs]]. subst st'.
+      assert (HL : lss t (seen ++ [ch]) = c :: r) by (rewrite lss_find, F; reflexivity).
+      apply find_some in F as [_ Fst].
+      unfold t in Fst. rewrite is_state_build in Fst. fold t in Fst.
+      change (state_of t (c :: r)) with (t_lookup (build d) (c :: r)).
+      rewrite lookup_build. rewrite Fst.
+      rewrite HL in IH'.
+      destruct (pat_of d (c :: r)) as [p|] eqn:Ep; cbn [option_map].
+      * pose proof (apply_main p (c :: r) h (length seen) n oob (pat_of_length _ _ _ Ep)) as HA.
+        destruct (apply_pat h (Z.of_nat (length seen) + 1 - Z.of_nat (length (strip0 p)))%Z
+                    (strip0 p) n oob) as [h' oob'] eqn:Ea.
+        cbn [fst] in HA. subst h'. apply IH'.
+      * apply IH'.
+    + assert (HL : lss t (seen ++ [ch]) = []) by (rewrite lss_find, F; reflexivity).
+      rewrite HL in IH'. apply IH'.
+Qed.
+
+Lemma walk_build_spec : forall (d : list (list char)) (w : list char),
+  fst (walk (build d) w) = Hyph_spec d w.
+Proof.
+  intros d w. unfold walk, Hyph_spec.
+  exact (walk_aux_spec d (Z.of_nat (length w)) (dot :: w ++ [dot]) []
+           (repeat 0 (length w)) false).
+Qed.
